@@ -712,6 +712,9 @@ package control
 //@   at return 4 assert resp == nil && !needRefresh && calls("evictDnsRespCacheIfSame") == 0
 //@   at return 5 assert resp != nil && calls("GetStaleResponse") == 1 && calls("evictDnsRespCacheIfSame") == 0
 //@   at return 6 assert resp == nil && !needRefresh && calls("evictDnsRespCacheIfSame") == 1
+// every lookup that finds an entry counts as a use for the LRU order - before the freshness decision, so a stale
+// answer that is served was used too
+//@   at call Time).After#1 assert calls("Int64).Store") == 1
 
 // C10: the side effects to retract after a cache entry was replaced are the address answers of the old
 // entry that are real addresses and that the new entry no longer lists - nothing the new entry still
@@ -1107,3 +1110,98 @@ package control
 //@   dyncalls noeffect
 //@   modifies *
 //@   at call InvalidateDialerNetworkType#1 assert a1 == d && a2 == networkType && !alive && d != nil && networkType.L4Proto == consts.L4ProtoStr_UDP && networkType.EffectiveUdpHealthDomain() != dialer.UdpHealthDomainDns
+
+// C08 (a reload keeps the cache behaviour): the facade that serves lookups after a reload carries each behaviour
+// setting of the controller it was made from - field by field.
+//@ func (*DnsController).copyBehaviorConfigTo
+//@   anchorsonly
+//@   nonilcheck
+//@   dyncalls noeffect
+//@   modifies *
+//@   at call Int64).Load#1 assert a0 == c.optimisticCacheTtl
+//@   at call Int64).Store#1 assert a0 == dst.optimisticCacheTtl
+//@   at call Int64).Load#2 assert a0 == c.maxCacheSize
+//@   at call Int64).Store#2 assert a0 == dst.maxCacheSize
+//@   at call Uint32).Load#1 assert a0 == c.qtypePrefer
+//@   at call Uint32).Store#1 assert a0 == dst.qtypePrefer
+//@   at call Bool).Load#1 assert a0 == c.optimisticCacheEnabled
+//@   at call Bool).Store#1 assert a0 == dst.optimisticCacheEnabled
+
+// C10 (an evicted entry gives its addresses back): whenever the entry really was removed from the cache, its
+// owner is retracted from the kernel table - unconditionally, whether or not a sibling scope still lists the
+// same addresses (the tracker decides what stays) - and knowledge and base-key side effects are released.
+//@ func (*DnsController).evictDnsRespCacheIfSame
+//@   anchorsonly
+//@   nonilcheck
+//@   dyncalls noeffect
+//@   modifies *
+//@   ghostfn removed() bool
+//@   at call CompareAndDelete#1 assume-after result == removed()
+//@   at call forgetDnsKnowledge#1 assert a1 == cacheKey && a2 == cache && removed()
+//@   at call invokeCacheDeleteCallback#1 assert a1 == cacheKey && a2 == cache && removed()
+//@   at call onBaseKeySideEffectsEvicted#1 assert a2 == cache
+//@   ensures calls("CompareAndDelete") == 1 && removed() ==> calls("invokeCacheDeleteCallback") == 1 && calls("forgetDnsKnowledge") == 1 && calls("onBaseKeySideEffectsEvicted") == 1
+
+// C13 (an accepted task is never lost): the queue stays pinned (its reference held) until the task has been
+// handed to it - the reference is dropped after the enqueue, not before.
+//@ func (*UdpTaskPool).EmitTask
+//@   anchorsonly
+//@   nonilcheck
+//@   dyncalls noeffect
+//@   modifies *
+//@   at call enqueue#1 assert a0 == q && q != nil && calls("Int32).Add") == 0
+//@   at call Int32).Add#1 assert a1 == -1 && calls("enqueue") == 1
+
+// C13 (tuples are released once and never tracked after close): once releaseTrackedUdpConnState has run the
+// endpoint is marked closed for tuple tracking on EVERY path - also when it had no tuples yet - so a late
+// TrackUdpConnStateTuplePair cannot retain tuples nobody will release.
+//@ func (*UdpEndpoint).releaseTrackedUdpConnState
+//@   anchorsonly
+//@   nonilcheck
+//@   dyncalls noeffect
+//@   modifies *
+//@   at call Mutex).Unlock#2 assert ue.udpConnStateClosed
+//@   at call Mutex).Unlock#3 assert ue.udpConnStateClosed && ue.udpConnStateTuples == nil
+//@   at call ReleaseUdpConnStateTuples#1 assert a0 == owner && a1 == keys
+
+// C13 (a health change invalidates what was dialled before it): the per-dialer epoch is advanced on EVERY
+// invalidation of a (dialer, network type) - also when no endpoint of it is indexed yet (the first one may be
+// in creation) - so an endpoint whose generation predates the change is never handed out as current.
+//@ func (*UdpEndpointPool).InvalidateDialerNetworkType
+//@   anchorsonly
+//@   nonilcheck
+//@   dyncalls noeffect
+//@   modifies *
+//@   at call dialerEpochCounter#1 assert a1 == d && calls("Map).Load") == 0
+//@   at call Map).Load#1 assert calls("dialerEpochCounter") == 1
+
+// C18 (knowledge follows the records' own lifetime): when the knowledge of a name is recomputed from its cache
+// entries, each entry counts until its ORIGINAL deadline (not the fixed-TTL one), and only entries of this name.
+//@ func (*DnsController).syncDnsKnowledgeLocked$1
+//@   anchorsonly
+//@   nonilcheck
+//@   dyncalls noeffect
+//@   modifies *
+//@   at call dnsCacheBaseKey#1 assert a0 == cacheKey
+//@   at call Time).UnixNano#1 assert a0 == cache.OriginalDeadline
+
+// C18 (only real answers teach a name): nothing is cached - and so nothing remembered as "resolved through dae" -
+// for a message that is not a response, has no question, or whose rcode is anything but success (NXDOMAIN included).
+//@ func (*DnsController).NormalizeAndCacheDnsResp_
+//@   anchorsonly
+//@   nonilcheck
+//@   dyncalls noeffect
+//@   modifies *
+//@   ensures old(!msg.Response || len(msg.Question) == 0 || msg.Rcode != 0) ==> calls("updateDnsCache") == 0 && err == nil
+//@   at call updateDnsCache#1 assert a1 == msg && a2 == responseCacheKey && a3 == ttl && ttl <= 31536000
+
+// C19 (the control plane's conn_state keys are the kernel's): the reverse key of a tracked UDP flow is built like
+// the kernel's copy_reversed_tuples does it - addresses AND ports exchanged - by the same key constructor as the
+// forward key with source and destination swapped.
+//@ func (*UdpEndpoint).TrackUdpConnStateTuplePair
+//@   anchorsonly
+//@   nonilcheck
+//@   dyncalls noeffect
+//@   modifies *
+//@   at call bpfTuplesKeyFromAddrPorts#1 assert a0 == src && a1 == dst && a2 == 17
+//@   at call bpfTuplesKeyFromAddrPorts#2 assert a0 == dst && a1 == src && a2 == 17
